@@ -1,10 +1,17 @@
 """Property -> units / harnesses / stated assumptions.  Units are /verif/units/<name>.vrs."""
 
 UNIT_NOTES = {
+    "history": "L2 per-key history BlockHistoryCacheData<V>: new/latest/set/unset/reorg/is_old/remove_old_values against the abstract Map<u64,Option<V>> model",
     "scalars": "L5 scalar kernels: get_gas_limit, get_inscription_byte_len (+ lemma: parked transactions keep at most their allowance)",
 }
 
 PROPS = {
+    "C13": {
+        "units": ["history"],
+        "kani": [],
+        "level": "proof",
+        "assumptions": [],
+    },
     "C16": {
         "units": ["scalars"],
         "kani": [],
